@@ -420,8 +420,9 @@ def _check_wrapper(case, ctx, wrapper, expected, produced, has_len):
                     k + 1, produced())
     if take is None or take >= len(expected):
         r = sut(next, it)
-        require(isinstance(r, Raised) and isinstance(r.exc, StopIteration),
-                "wrapper yielded more than the %d items of the iterable: %r", len(expected), r)
+        require(isinstance(r, Raised), "wrapper yielded more than the %d items of the iterable: %r", len(expected), r)
+        require(isinstance(r.exc, StopIteration), "iterating the wrapper over a valid iterable failed after %d items: %r",
+                len(got), r)
     require(got == expected[:limit], "wrapper yielded %r, the iterable has %r", got[:12], expected[:limit][:12])
 
 
